@@ -45,6 +45,8 @@ type Client struct {
 	writeTimeout time.Duration
 	// readTimeout is total amount of time reading the response can take before client returns error
 	readTimeout time.Duration
+	// packetMaxLen is maximum length in bytes that valid packet of the used protocol (TCP/RTU) can be
+	packetMaxLen int
 
 	dialContextFunc     func(ctx context.Context, address string) (net.Conn, error)
 	asProtocolErrorFunc func(data []byte) error
@@ -83,6 +85,7 @@ func defaultClient(conf ClientConfig) *Client {
 		timeNow:      time.Now,
 		writeTimeout: defaultWriteTimeout,
 		readTimeout:  defaultReadTimeout,
+		packetMaxLen: tcpPacketMaxLen,
 
 		dialContextFunc: dialContext,
 		// TCP is our default protocol
@@ -134,6 +137,7 @@ func NewRTUClientWithConfig(conf ClientConfig) *Client {
 	client := defaultClient(conf)
 	client.asProtocolErrorFunc = asRTUErrorPacketWithCRC
 	client.parseResponseFunc = packet.ParseRTUResponseWithCRC
+	client.packetMaxLen = rtuPacketMaxLen
 	return client
 }
 
@@ -273,7 +277,7 @@ func (c *Client) do(ctx context.Context, data []byte, expectedLen int) ([]byte, 
 			return nil, &ClientError{Err: err}
 		}
 		total += n
-		if total > tcpPacketMaxLen {
+		if total > c.packetMaxLen {
 			return nil, &ErrPacketTooLong
 		}
 		// check if we have exactly the error packet. Error packets are shorter than regulars packets
